@@ -1,4 +1,5 @@
 import Verif.Proofs.JsHoistCtx
+import Verif.Proofs.JsHoistEarly
 /-!
 # C01D — declaration handling of the JS minifier preserves program behaviour (sub-check of C01)
 
@@ -214,6 +215,11 @@ theorem hoist_sound (kw : Bool) (H : Host) (n : Nat) (ps : List String) (cenv : 
 def hoist_sound_prog_full (kw : Bool) : Prop :=
   ∀ (H : Host) (d : Nat) (s0 : St) (prog : List DS), runProg H d (hoistBodyG kw prog) s0 = runProg H d prog s0
 
+/-- `g();var a=1;g();var b=2;g(a,b)` -/
+def hoistExD : List DS :=
+  [.expr (.call (.var "g" {}) []), .decl .var [.assign "a" {} (.num 1)], .expr (.call (.var "g" {}) []),
+   .decl .var [.assign "b" {} (.num 2)], .expr (.call (.var "g" {}) [.var "a" {}, .var "b" {}])]
+
 /-- `{let a=1;while(g(a)){}}var a;g(a)` -/
 def d1Prog : List DS :=
   [.block [.decl .let_ [.assign "a" {} (.num 1)],
@@ -252,6 +258,30 @@ theorem hoist_sound_partial (kw : Bool) (H : Host) (d : Nat) (s0 : St) (prog : L
   have hd' : execL H (callN H d) (hoistBodyG kw prog) = execL H (callN H d) prog := funext (hd H _)
   unfold runProg
   simp only [hfr, he, hg, hl, hd']
+
+/-- **hoist_early** : `isShadowed` suffices — a body without early error has none after `hoistVars`, unless the guard of
+    K-C01D-1 fires (a hoisted name is declared with let / const in the block that holds the `while` loop whose head
+    receives the names) -/
+theorem hoist_early (kw : Bool) (ps : List String) (body : List DS) (h0 : earlyBody ps body = false)
+    (hg : d1BodyG kw body = false) : earlyBody ps (hoistBodyG kw body) = false :=
+  Verif.Proofs.JsDecl.hoist_early kw ps body h0 hg
+
+/-- **hoist_sound_prog_partial**: for a program without early error the run after `hoistVars` is the same, unless the
+    guard of K-C01D-1 fires -/
+theorem hoist_sound_prog_partial (kw : Bool) (H : Host) (d : Nat) (s0 : St) (prog : List DS)
+    (h0 : earlyBody [] prog = false) (hg : d1BodyG kw prog = false) :
+    runProg H d (hoistBodyG kw prog) s0 = runProg H d prog s0 :=
+  hoist_sound_partial kw H d s0 prog (by rw [hoist_early kw [] prog h0 hg, h0])
+
+/-- **hoist_sound_prog_repaired** (full for valid programs): with `isShadowed` repaired (docs/C01D-fix-1.patch,
+    `kw = true`) there is no guard left -/
+theorem hoist_sound_prog_repaired (H : Host) (d : Nat) (s0 : St) (prog : List DS) (h0 : earlyBody [] prog = false) :
+    runProg H d (hoistBodyG true prog) s0 = runProg H d prog s0 :=
+  hoist_sound_prog_partial true H d s0 prog h0 (d1BodyG_true prog)
+
+/-- the guard is satisfiable and fires on the counterexample -/
+example : d1BodyG false hoistExD = false := by decide
+example : d1BodyG false d1Prog = true := by decide
 
 /-- non-vacuity of the guard: `g();var a=1;g();var b=2;g(a,b)` is really transformed and keeps its early-error status -/
 def hoistEx : List DS :=
@@ -298,5 +328,24 @@ example : Within (itemNames [.assign "b" {} (.num 0)]) (ForInitMerge (itemNames 
     [.decl .var [.var "a" {}], .forS false (.decl .var [.assign "b" {} (.num 0)]) none none []]
     [.forS false (.decl .var (mergeVarDecls .var [.var "a" {}] [.assign "b" {} (.num 0)] false)) none none []] :=
   .here [] ⟨false, none, none, [], [], Or.inl ⟨_, _, .var, Or.inl rfl, rfl, rfl, rfl⟩⟩
+
+/-! ## (e) what else happens to declarations
+
+`minifyVarDecl` sorts the items of a `var` declaration (items without initialiser first, single letters by frequency).
+Destructuring bindings are outside the fragment: the model does not accept them, the node sweep covers them. -/
+
+/-- **sort_decl_sound** (full): printing a `var` declaration with its items sorted by `minifyVarDecl` -/
+theorem sort_decl_sound (H : Host) (n : Nat) (ps : List String) (cenv : Env) (args : List Val)
+    (body body' : List DS)
+    (h : Within [] (fun l l' => ∃ items rest, l = .decl .var items :: rest ∧ l' = .decl .var (sortDecl items) :: rest)
+      body body') :
+    callN H (n + 1) (.clo ps body' cenv) args = callN H (n + 1) (.clo ps body cenv) args := by
+  have heq : ListEqA [] body body' := h.listEq (by
+    rintro l l' ⟨items, rest, rfl, rfl⟩
+    exact sortDecl_eq items rest)
+  exact (callN_congr H n ps cenv args heq (by simp)).symm
+
+example : itemNames (sortDecl [.assign "a" {} (.num 1), .var "z" {}, .assign "c" {} (.num 2), .var "e" {}])
+    = ["e", "z", "a", "c"] := by decide
 
 end Verif.Props.C01D
